@@ -137,6 +137,7 @@ class Armorable(metaclass=abc.ABCMeta):
                 and Armorable.__armor_marker.encode('ascii') in text):
             text = text[3:]
 
+        latin1 = False
         if not Armorable.is_ascii(text):
             # not ASCII: binary packet data, unless this is armored text with non-ASCII characters in its armor
             # headers (their values are UTF-8 text, RFC 4880 6.2), in a signed cleartext or in the text around the armor
@@ -150,6 +151,7 @@ class Armorable(metaclass=abc.ABCMeta):
                     text = text.decode('utf-8')
                 except UnicodeDecodeError:
                     text = text.decode('latin-1')
+                    latin1 = True
 
             else:
                 m['body'] = bytearray(text)
@@ -165,6 +167,11 @@ class Armorable(metaclass=abc.ABCMeta):
 
         end = m.end()
         m = m.groupdict()
+
+        if latin1 and m.get('cleartext') is not None:
+            # the input was octets that are not UTF-8: a signature covers the octets of the text, so these are handed
+            # on as they came (Latin-1 maps every octet to one character and back) instead of as characters
+            m['cleartext'] = m['cleartext'].encode('latin-1')
 
         if m['hashes'] is not None:
             m['hashes'] = re.findall(r'[A-Za-z0-9\-]+', re.sub(r'^Hash:', '', m['hashes'], flags=re.MULTILINE)) or None
